@@ -308,7 +308,8 @@ class SF:
         o = SF.of(o)
         if not (self.trivial() and o.trivial()):
             raise Unsupported("division with infinities")
-        if z3.is_rational_value(o.v) and not z3.is_true(z3.simplify(o.v == 0)):
+        if z3.is_rational_value(o.v) and not z3.is_true(z3.simplify(o.v == 0)) and (
+                not Config.div_uninterpreted or z3.is_rational_value(self.v)):
             return SF(b_or(self.nan, o.nan), self.v / o.v)
         from .runtime import current
         rt = current()
